@@ -93,14 +93,17 @@ class ProjectSettings:
         """
         Return simulation time vector
 
-        This method uses `linspace` rather than `arange` to avoid accumulating numerical errors that prevent
+        Every point is computed as ``start + k*dt`` to avoid accumulating numerical errors that prevent
         integer years aligning exactly.
 
         :return: Array of simulation times
 
         """
 
-        return np.linspace(self.sim_start, self.sim_end, int(round((self.sim_end - self.sim_start) / self.sim_dt)) + 1)
+        # Compute every time point as start + k*dt. This does not accumulate errors (unlike repeated addition) and, unlike `linspace`,
+        # the value of a time point does not depend on the end year - otherwise extending the simulation changes earlier time points
+        # in the last bits, which can flip comparisons such as `t <= stop_year` for years that lie on the time grid
+        return self.sim_start + np.arange(int(round((self.sim_end - self.sim_start) / self.sim_dt)) + 1) * self.sim_dt
 
     def update_time_vector(self, start: float = None, end: float = None, dt: float = None) -> None:
         """
